@@ -50,6 +50,22 @@ pub struct GraphSpec
 
 pub const CONTENT_POOL: [&str; 5] = ["v0", "v1", "v2", "v3", "v4"];
 
+/// Number of distinct user file contents.  Indices 0..5 are the short pool above (also what `failon` lines compare
+/// against); 5 is the EMPTY file, 6 is exactly one 256-byte hashing block, 7 spans three blocks.  Older replay files only
+/// use 0..5 and keep their meaning.
+pub const N_CONTENTS: u8 = 8;
+
+pub fn content(idx: u8) -> Vec<u8>
+{
+    match idx % N_CONTENTS
+    {
+        i @ 0..=4 => CONTENT_POOL[i as usize].as_bytes().to_vec(),
+        5 => vec![],
+        6 => (0..256usize).map(|i| b'a' + (i % 23) as u8).collect(),
+        _ => (0..700usize).map(|i| b'A' + (i % 19) as u8).collect(),
+    }
+}
+
 pub fn rule_spec(max_targets: u8, allow_fail: bool) -> impl Strategy<Value = RuleSpec>
 {
     rule_spec_ext(max_targets, allow_fail, false)
@@ -87,7 +103,7 @@ pub fn graph_spec_ext(max_rules: usize, allow_fail: bool, allow_late_fail: bool)
 {
     (
         1u8..=4,
-        proptest::collection::vec(0u8..5, 4),
+        proptest::collection::vec(0u8..N_CONTENTS, 4),
         proptest::collection::vec(rule_spec_ext(3, allow_fail, allow_late_fail), 1..=max_rules),
         any::<u16>(),
         prop_oneof![3 => Just(false), 1 => Just(true)],
@@ -215,8 +231,7 @@ pub fn build_model(g: &GraphSpec) -> (Model, Names)
     let mut files = BTreeMap::new();
     for (i, l) in leaves.iter().enumerate()
     {
-        let c = g.leaf_contents.get(i).cloned().unwrap_or(0) as usize % 5;
-        files.insert(l.clone(), CONTENT_POOL[c].as_bytes().to_vec());
+        files.insert(l.clone(), content(g.leaf_contents.get(i).cloned().unwrap_or(0)));
     }
     let mut rules: Vec<MRule> = vec![];
     let mut candidates = leaves.clone();
@@ -347,7 +362,7 @@ pub fn op(mix: OpMix) -> impl Strategy<Value = Op>
     let cl = if mix.cleans { 1u32 } else { 0 };
     let dl = if mix.delete_leaf { 1u32 } else { 0 };
     let all: Vec<(u32, BoxedStrategy<Op>)> = vec![
-        (10, (any::<u16>(), 0u8..5).prop_map(|(leaf, content)| Op::Edit { leaf, content }).boxed()),
+        (10, (any::<u16>(), 0u8..N_CONTENTS).prop_map(|(leaf, content)| Op::Edit { leaf, content }).boxed()),
         (6, any::<u16>().prop_map(|leaf| Op::Revert { leaf }).boxed()),
         (mix.swaps, (any::<u16>(), any::<u16>()).prop_map(|(a, b)| Op::Swap { a, b }).boxed()),
         (dl, any::<u16>().prop_map(|leaf| Op::DeleteLeaf { leaf }).boxed()),
@@ -362,8 +377,8 @@ pub fn op(mix: OpMix) -> impl Strategy<Value = Op>
         (re, (any::<u16>(), any::<bool>()).prop_map(|(seed, bundle)| Op::Reformat { seed, bundle }).boxed()),
         (16, goal.prop_map(|goal| Op::Build { goal }).boxed()),
         (4 * cl, goal2.prop_map(|goal| Op::Clean { goal }).boxed()),
-        (4, (any::<u16>(), 0u8..5).prop_map(|(t, content)| Op::Tamper { t, content }).boxed()),
-        (2, (any::<u16>(), 0u8..5).prop_map(|(t, content)| Op::TamperOld { t, content }).boxed()),
+        (4, (any::<u16>(), 0u8..N_CONTENTS).prop_map(|(t, content)| Op::Tamper { t, content }).boxed()),
+        (2, (any::<u16>(), 0u8..N_CONTENTS).prop_map(|(t, content)| Op::TamperOld { t, content }).boxed()),
         (4, any::<u16>().prop_map(|t| Op::DeleteTarget { t }).boxed()),
         (3 * dm, any::<u16>().prop_map(|k| Op::DeleteCacheEntry { k }).boxed()),
         (dm, Just(Op::DeleteRulerDir).boxed()),
